@@ -1,6 +1,11 @@
 """Real `ResourceManager` / `partial` / `Workflow` runs for C22, scripted.
 
-A *graph* is a list of `{"c": cached, "a": async, "f": fails, "d": [dep ids]}`.
+A *graph* is a list of `{"c": cached, "a": async, "f": fails, "d": [dep ids], "v": value kind}`
+(`v` optional: 0 an ordinary object `Obj(rid, serial)`, 1 `None`, 2 `0`, 3 `""`, 4 a fresh `[]`,
+5 `False` -- any value is a legal resource; the falsy ones have no attribute to carry a
+serial, so an injected value is *rendered* as its serial when every call returns a new
+object (kinds 0 and 4, the list through an id registry) and as the value itself
+(`N`/`Z`/`E`/`F`) when the value is an interned singleton).
 `World` turns it into real `Resource(...)` descriptors over real factory functions
 (`r0`, `r1`, ...; the `__qualname__` is the resource name) whose signatures declare
 their dependencies as `Annotated[Obj, <descriptor>]` parameters (cycles and
@@ -55,9 +60,20 @@ def dots(xs) -> str:
     return ".".join(str(x) for x in xs)
 
 
+#: value kinds of a factory (graph key "v"); the token an observer sees for the interned ones
+VAL_NAMES = {0: "object", 1: "None", 2: "0", 3: "''", 4: "[]", 5: "False"}
+VAL_TOKEN = {1: "N", 2: "Z", 3: "E", 5: "F"}
+FRESH_KINDS = (0, 4)  # every factory call returns a new object: identity tells creations apart
+MISSING = object()  # "no such keyword argument" (a None argument is a value, not an absence)
+
+
+def vkind(r: dict) -> int:
+    return int(r.get("v", 0))
+
+
 def graph_line(g: list[dict]) -> str:
     return "graph|" + ";".join(
-        f"{int(r['c'])}{int(r['a'])}{int(r['f'])}:{','.join(map(str, r['d']))}" for r in g)
+        f"{int(r['c'])}{int(r['a'])}{int(r['f'])}{vkind(r) or ''}:{','.join(map(str, r['d']))}" for r in g)
 
 
 class World:
@@ -70,6 +86,7 @@ class World:
         self.events: list[str] = []
         self.next_serial = 0
         self.gates: dict[int, asyncio.Event] = {}
+        self.lists: dict[int, tuple[list, int]] = {}  # id -> (the list a factory returned, kept alive; serial)
         self.manager = ResourceManager()
         self.factories: list[Callable] = []
         self.desc: list[Any] = []
@@ -92,15 +109,39 @@ class World:
     def _call(self, rid: int, args: list) -> int:
         serial = self.next_serial
         self.next_serial += 1
-        self.events.append(f"call:{CUR.get()}:{rid}:{serial}:{dots(getattr(a, 'serial', '?') for a in args)}")
+        self.events.append(f"call:{CUR.get()}:{rid}:{serial}:{dots(self.tok(a) for a in args)}")
         return serial
 
-    def _ret(self, rid: int, serial: int) -> Obj:
+    def _ret(self, rid: int, serial: int) -> Any:
         if self.g[rid]["f"]:
             self.events.append(f"raised:{CUR.get()}:{rid}:{serial}")
             raise FactoryError(rid)
         self.events.append(f"made:{CUR.get()}:{rid}:{serial}")
-        return Obj(rid, serial)
+        kind = vkind(self.g[rid])
+        if kind == 0:
+            return Obj(rid, serial)
+        if kind == 4:
+            v: list = []
+            self.lists[id(v)] = (v, serial)
+            return v
+        return {1: None, 2: 0, 3: "", 5: False}[kind]
+
+    def tok(self, v: Any) -> Any:
+        """What the holder of an injected value can tell about it: the serial of the creation
+        (an `Obj`, or one of our lists), else the interned value itself, else `?`."""
+        if isinstance(v, Obj):
+            return v.serial
+        if type(v) is list and id(v) in self.lists and self.lists[id(v)][0] is v and not v:
+            return self.lists[id(v)][1]
+        if v is None:
+            return "N"
+        if v is False:
+            return "F"
+        if type(v) is int and v == 0:
+            return "Z"
+        if type(v) is str and v == "":
+            return "E"
+        return "?"
 
     def _sync_body(self, rid: int, args: list) -> Obj:
         return self._ret(rid, self._call(rid, args))
@@ -120,7 +161,7 @@ class World:
     # -- observation ---------------------------------------------------------
     def outcome(self, exc: BaseException | None, objs: list | None) -> str:
         if exc is None:
-            return "ok:" + dots(getattr(o, "serial", "?") for o in (objs or []))
+            return "ok:" + dots(self.tok(o) for o in (objs or []))
         if isinstance(exc, FactoryError):
             return f"failed:{exc.rid}"
         m = re.fullmatch(r"Circular resource dependency detected: (.*)", str(exc)) if isinstance(exc, ValueError) else None
@@ -137,7 +178,7 @@ class World:
         rid = self.name_to_rid
 
         def dct(d: dict) -> str:
-            items = sorted((rid.get(k, 10 ** 6), getattr(v, "serial", "?")) for k, v in d.items())
+            items = sorted((rid.get(k, 10 ** 6), self.tok(v)) for k, v in d.items())
             return ",".join(f"{k}:{v}" for k, v in items)
 
         lock = getattr(m, "_scope_lock", None)
@@ -225,9 +266,9 @@ def _direct(g: list[dict], ops: list[list] | None, chooser: Callable | None) -> 
                     resources=[ResourceDefinition(name=f"p{j}", resource=w.desc[r], type_annotation=Obj)
                                for j, r in enumerate(reqs)])
                 fn = await SF.partial(func=lambda **kw: kw, step_config=cfg, event=None, context=None, workflow=wf)
-                objs = [fn.keywords.get(f"p{j}") for j in range(len(reqs))]
+                objs = [fn.keywords.get(f"p{j}", MISSING) for j in range(len(reqs))]
             outcome = w.outcome(None, objs)
-            rec["objs"] = [getattr(o, "serial", None) for o in objs]
+            rec["objs"] = [w.tok(o) for o in objs]
             rec["obj_rids"] = [getattr(o, "rid", None) for o in objs]
         except BaseException as e:  # noqa: BLE001 - classified; cancellation re-raised
             outcome = w.outcome(e, None)
@@ -412,9 +453,9 @@ def run_workflow(case: dict) -> tuple[list[str], list[list], dict]:
             outcome = "?"
             try:
                 fn = await orig(func=func, step_config=step_config, event=event, context=context, workflow=workflow)
-                objs = [fn.keywords.get(rd.name) for rd in step_config.resources]
+                objs = [fn.keywords.get(rd.name, MISSING) for rd in step_config.resources]
                 outcome = w.outcome(None, objs)
-                rec["objs"] = [getattr(o, "serial", None) for o in objs]
+                rec["objs"] = [w.tok(o) for o in objs]
                 return fn
             except BaseException as e:  # noqa: BLE001
                 outcome = w.outcome(e, None)
